@@ -1,10 +1,10 @@
 CONSTANTS
-  N = 6
-  K = 1
+  N = 5
+  K = 5
   Coupled = TRUE
-  B = 0
+  B = 5
   HCap = 0
 SPECIFICATION Spec
 INVARIANT NoDeadlock
-
+PROPERTIES AllComplete
 CHECK_DEADLOCK FALSE
